@@ -91,38 +91,42 @@ def run(chk):
         return explore_puc(chk, m, 1, 1, 1, cfg=dict(env_assume=tail_assume(m)))
 
     CONTRACT = {}
-    both('start_update_check', sut)
-    both('ping_omaha', ping)
-    both('exchange', exchange)
-    both('tail', tail)
-    # helpers explored from arbitrary inputs (storage and clock values symbolic)
-    for key, args in (('StateMachine::report_check_interval', lambda: [Ptr('sm'), Tree({}, 'src', 'InstallSource')]),):
-        ex = make_sm_executor(chk, dict(unroll=4, env_assume=mk_assume('storage')), cuts=('persist', 'appset'))
-        fn = find_method(ex, key)
-        res = drive_async(ex, fn, args(), State())
-        explored[key] = {'paths': panic_free(chk, Dp, ex, res, key)}
-        chk.absorb(ex)
-    ex = make_sm_executor(chk, dict(unroll=4, env_assume=mk_assume('storage')))
-    fn = find_method(ex, 'StateMachine::report_waited_for_reboot_duration')
-    res = ex.run_fn(fn, [Ptr('sm'), Tree({}, 'finish', 'std::time::SystemTime'), Tree({}, 'start', 'std::time::Instant'), Tree({}, 'now', 'time::ComplexTime')], State())
-    explored['report_waited_for_reboot_duration'] = {'paths': panic_free(chk, Dp, ex, res, 'report_waited_for_reboot_duration')}
-    chk.absorb(ex)
-    ex, res = explore_puc(chk, 'loop-anyclock', 1)
-    explored['attempt_loop'] = {'paths': panic_free(chk, Dp, ex, res, 'attempt loop')}
-    chk.absorb(ex)
-    for D in (Dp, Ds):
-        f = D.done()
-        if f and f[0] == 'violated':
-            D.ob.key = D.ob.name
-            st = f[3]
-            D.ob.cex = {'what': f[1]}
-            if f[2] is not None and st is not None:
-                D.ob.cex['model'] = dict((str(d), str(f[2][d])) for d in list(f[2].decls())[:40])
-    chk.extra['explored'] = explored
-    c07.persist_load(chk)
     import runmon
-    runmon.monitor_run(chk, chk.tier)       # the main loop and its start-up (stored finish time / target version arbitrary)
-    chk.obligations = [o for o in chk.obligations if o.name in ('no-panic-path', 'storage-failures-invisible', 'load-decoding', 'run-explored')]
+    PARTS = ['both:start_update_check', 'both:ping_omaha', 'both:exchange', 'both:tail', 'helpers', 'load'] + runmon.parts(chk.tier)
+    if not chk.parallel(os.path.abspath(__file__), PARTS, post_merge=runmon.post_merge):
+        for nm_, fn_ in (('start_update_check', sut), ('ping_omaha', ping), ('exchange', exchange), ('tail', tail)):
+            if chk.part in (None, 'both:' + nm_):
+                both(nm_, fn_)
+        if chk.want('helpers'):
+            # helpers explored from arbitrary inputs (storage and clock values symbolic)
+            for key, args in (('StateMachine::report_check_interval', lambda: [Ptr('sm'), Tree({}, 'src', 'InstallSource')]),):
+                ex = make_sm_executor(chk, dict(unroll=4, env_assume=mk_assume('storage')), cuts=('persist', 'appset'))
+                fn = find_method(ex, key)
+                res = drive_async(ex, fn, args(), State())
+                explored[key] = {'paths': panic_free(chk, Dp, ex, res, key)}
+                chk.absorb(ex)
+            ex = make_sm_executor(chk, dict(unroll=4, env_assume=mk_assume('storage')))
+            fn = find_method(ex, 'StateMachine::report_waited_for_reboot_duration')
+            res = ex.run_fn(fn, [Ptr('sm'), Tree({}, 'finish', 'std::time::SystemTime'), Tree({}, 'start', 'std::time::Instant'), Tree({}, 'now', 'time::ComplexTime')], State())
+            explored['report_waited_for_reboot_duration'] = {'paths': panic_free(chk, Dp, ex, res, 'report_waited_for_reboot_duration')}
+            chk.absorb(ex)
+            ex, res = explore_puc(chk, 'loop-anyclock', 1)
+            explored['attempt_loop'] = {'paths': panic_free(chk, Dp, ex, res, 'attempt loop')}
+            chk.absorb(ex)
+        for D in (Dp, Ds):
+            f = D.done()
+            if f and f[0] == 'violated':
+                D.ob.key = D.ob.name
+                st = f[3]
+                D.ob.cex = {'what': f[1]}
+                if f[2] is not None and st is not None:
+                    D.ob.cex['model'] = dict((str(d), str(f[2][d])) for d in list(f[2].decls())[:40])
+        chk.extra['explored'] = explored
+        if chk.want('load'):
+            c07.persist_load(chk)
+        if chk.want('run'):
+            runmon.monitor_run(chk, chk.tier)       # the main loop and its start-up (stored finish time / target version arbitrary)
+    chk.obligations = [o for o in chk.obligations if o.name in ('no-panic-path', 'storage-failures-invisible', 'load-decoding', 'run-explored') or o.name.startswith('part:')]
     chk.bounds.update({'apps': 1, 'header bytes': 4, 'attempt loop unrolling': 5})
     chk.assumptions += [
         'installer contract: one result per offered app (a mismatch makes Vec::remove / zip misbehave; excluded as not contract-conforming)',
